@@ -57,4 +57,41 @@ __CPROVER_ensures((RET != CIF_OK && loop != NULL) ==> *loop == OLD(*loop))
 /* never ends somebody else's transaction */
 __CPROVER_ensures(OLD(g_tx_open) ==> (g_commits == OLD(g_commits) && g_rollbacks == OLD(g_rollbacks)))
 ;
+
+/* ---- cif_container_set_value: the bracket of a top-level mutator ----------------------------------------------------------------
+ * Its helpers work inside the caller's transaction.  ASSUMED contract for them (not verified in this round, listed as such in the evidence): they never end
+ * the caller's transaction, and every write they step is either still pending in it or was undone again. */
+#define SQL_STAYS_IN_CALLERS_TX (g_tx_open && g_commits == OLD(g_commits) && g_rollbacks == OLD(g_rollbacks) && g_begins == OLD(g_begins) && g_durable_writes == OLD(g_durable_writes) \
+    && (g_tx_writes - OLD(g_tx_writes)) + (g_lost_writes - OLD(g_lost_writes)) == g_write_steps - OLD(g_write_steps) && g_tx_by_sp == OLD(g_tx_by_sp))
+int cif_normalize_item_name(const UChar *name, int32_t namelen, UChar **normalized_name, int invalidityCode)
+__CPROVER_requires(name != NULL && __CPROVER_rw_ok(normalized_name, sizeof(*normalized_name)))
+__CPROVER_assigns(*normalized_name)
+__CPROVER_ensures(RET == CIF_OK ==> __CPROVER_is_fresh(*normalized_name, sizeof(UChar)))
+__CPROVER_ensures(RET == CIF_OK || RET == invalidityCode || RET == CIF_MEMORY_ERROR || RET == CIF_ERROR)
+;
+static int cif_container_get_item_loop_internal(cif_container_tp *container, const UChar *name, cif_loop_tp *loop)
+__CPROVER_requires(CONTAINER_OK(container) && name != NULL && __CPROVER_rw_ok(loop, sizeof(*loop)))
+__CPROVER_assigns(*loop, g_finalized)
+__CPROVER_ensures(RET == CIF_OK ==> (loop->category == NULL || __CPROVER_is_fresh(loop->category, sizeof(UChar))))
+;
+static int cif_container_add_scalar(cif_container_tp *container, const UChar *item_name, const UChar *name_orig, cif_value_tp *val)
+__CPROVER_requires(CONTAINER_OK(container) && item_name != NULL && name_orig != NULL && val != NULL && g_tx_open)
+__CPROVER_assigns(G_SQL)
+__CPROVER_ensures(SQL_STAYS_IN_CALLERS_TX)
+;
+int cif_container_set_all_values(cif_container_tp *container, const UChar *item_name, cif_value_tp *val)
+__CPROVER_requires(CONTAINER_OK(container) && item_name != NULL && val != NULL && g_tx_open)
+__CPROVER_assigns(G_SQL)
+__CPROVER_ensures(SQL_STAYS_IN_CALLERS_TX)
+;
+int cif_container_set_value(cif_container_tp *container, const UChar *name_orig, cif_value_tp *val)
+__CPROVER_requires(CONTAINER_OK(container) && name_orig != NULL && (val == NULL || __CPROVER_r_ok(val, sizeof(*val))) && SQL_ENTRY)
+__CPROVER_assigns(G_SQL)
+/* inside somebody else's transaction the call is refused (it cannot BEGIN) and changes nothing */
+__CPROVER_ensures(OLD(g_tx_open) ==> (RET != CIF_OK && g_write_steps == OLD(g_write_steps) && g_commits == OLD(g_commits) && g_rollbacks == OLD(g_rollbacks)))
+/* success: committed, every write that was not undone by a helper is durable */
+__CPROVER_ensures(RET == CIF_OK ==> (!g_tx_open && (g_durable_writes - OLD(g_durable_writes)) + (g_lost_writes - OLD(g_lost_writes)) == g_write_steps - OLD(g_write_steps)))
+/* C05: failure leaves the database as it was */
+__CPROVER_ensures(RET != CIF_OK ==> SQL_UNCHANGED_BY_FAILED_CALL)
+;
 #endif
